@@ -523,8 +523,13 @@ const advCid = "RECORDED-CONNECTION-ID"
 func runAdvCase(c advCase) (string, advRun, *abstractor) {
 	// record: NRec honest hello sessions peer -> target, one honest join, one hello session under another cookie
 	var recorded [][]frame
+	// the target plays in the recordings the role it is attacked in
+	ini, acc := c.Peer, c.Target
+	if c.Role != "accept" {
+		ini, acc = c.Target, c.Peer
+	}
 	for i := 0; i < c.NRec; i++ {
-		fr, ra, rb := execPair(pairCase{A: c.Peer, B: c.Target, Pool: 3})
+		fr, ra, rb := execPair(pairCase{A: ini, B: acc, Pool: 3})
 		if ra.err != nil || rb.err != nil {
 			panic(fmt.Sprintf("recording failed: %v %v", ra.err, rb.err))
 		}
@@ -534,12 +539,12 @@ func runAdvCase(c advCase) (string, advRun, *abstractor) {
 	if acc, ok := decodeAs[handshake.MessageAccept](recorded[0][3].B); ok {
 		cid = acc.ID // the id of the first recorded (still live) connection
 	}
-	fj, ja, jb := execJoin(jpairCase{A: c.Peer, B: c.Target, Cid: cid})
+	fj, ja, jb := execJoin(jpairCase{A: ini, B: acc, Cid: cid})
 	if ja.err != nil || jb.err != nil {
 		panic("recording join failed")
 	}
 	recorded = append(recorded, fj)
-	po, to := c.Peer, c.Target
+	po, to := ini, acc
 	po.Cookie, to.Cookie = c.Other, c.Other
 	fo, _, _ := execPair(pairCase{A: po, B: to, Pool: 3})
 	recorded = append(recorded, fo)
